@@ -387,6 +387,13 @@ impl DmlExecutor {
 
         // Mark as deleted
         let mut deleted_tuple = tuple.clone();
+        // A delete mark left behind by a rolled-back transaction does not count: [Tuple::delete]
+        // keeps an existing mark, so it has to go first or this delete would silently do nothing.
+        if let Some(old_deleter) = deleted_tuple.xmax() {
+            if snapshot.is_transaction_aborted(old_deleter) {
+                deleted_tuple.clear_delete_mark()?;
+            }
+        }
         deleted_tuple.delete(snapshot.xid())?;
 
         // Log the delete
